@@ -92,11 +92,17 @@ def strip_adapters(t):
 
 
 def _sub(t):
-    if isinstance(t, tuple) and t:
-        yield t
-        for x in t:
-            if isinstance(x, tuple):
-                yield from _sub(x)
+    """All tuples inside t (terms and containers).  Terms are DAGs with heavy sharing: every shared object is visited once."""
+    stack, seen = [t], set()
+    while stack:
+        x = stack.pop()
+        if not isinstance(x, tuple) or not x or id(x) in seen:
+            continue
+        seen.add(id(x))
+        yield x
+        for y in reversed(x):
+            if isinstance(y, tuple):
+                stack.append(y)
 
 
 def index_range_of(t):
@@ -288,6 +294,19 @@ class Normalizer:
                     return ("lit", True)
                 if x[1].split("::")[-2] == d[1].split("::")[-2]:
                     return ("lit", False)          # another variant of the same enum
+            if not irrefutable and x[0] == "ctor" and isinstance(x[1], str) and "::" in x[1] and "::" in d[1] and d[3] != "struct":
+                # a known constructor against a pattern with sub-patterns: same variant and every argument matches its sub-pattern
+                if x[1].split("::")[-2:] == d[1].split("::")[-2:] and len(x[2]) == len(d[2]):
+                    acc = ("lit", True)
+                    for a_, d_ in zip(x[2], d[2]):
+                        c_ = ("lit", True) if wildish(d_) else self.rewrite(("matches", a_, d_))
+                        if c_ == ("lit", False):
+                            return ("lit", False)
+                        if c_ != ("lit", True):
+                            acc = c_ if acc == ("lit", True) else self.rewrite(("bin", "&&", acc, c_))
+                    return acc
+                if x[1].split("::")[-2] == d[1].split("::")[-2] and x[1].split("::")[-1] != d[1].split("::")[-1]:
+                    return ("lit", False)
             if irrefutable and x[0] == "ite":
                 a, b = self.rewrite(("matches", x[2], d)), self.rewrite(("matches", x[3], d))
                 T_, F_ = ("lit", True), ("lit", False)
@@ -302,7 +321,9 @@ class Normalizer:
                 if a == F_:
                     return self.rewrite(("bin", "&&", neg(x[1]), b))
             return t
-        if k == "matches" and t[2][0] == "or" and t[1][0] == "ctor":
+        if k == "matches" and t[1][0] == "lit" and t[2][0] == "lit" and type(t[1][1]) is type(t[2][1]):
+            return ("lit", t[1][1] == t[2][1])            # a literal against a literal pattern
+        if k == "matches" and t[2][0] == "or" and t[1][0] in ("ctor", "lit"):
             # a known variant against an or-pattern: one of the alternatives matches
             alts = [self.rewrite(("matches", t[1], d_)) for d_ in t[2][1]]
             if any(a == ("lit", True) for a in alts):
@@ -396,8 +417,12 @@ class Normalizer:
                 return a
             if c == ("lit", False):
                 return b
+            if a[0] == "lit" and b[0] == "lit" and a[1] is True and b[1] is False:
+                return c                    # if c { true } else { false }
+            if a[0] == "lit" and b[0] == "lit" and a[1] is False and b[1] is True:
+                return neg(c)
             return ("ite", c, a, b)
-        if k == "switch" and t[1][0] in ("ite", "ctor") and all(g is None for (d, g), v in t[2]):
+        if k == "switch" and t[1][0] in ("ite", "ctor", "lit") and all(g is None for (d, g), v in t[2]):
             # a `match` on a value that is itself a case split over constructors: select the arm(s)
             scrut, arms = t[1], t[2]
             acc = None
@@ -425,6 +450,18 @@ class Normalizer:
             c = self.rewrite(("matches", t[1], t[2][0][0][0]))
             if not (c[0] == "matches" and c[1] == t[1]):
                 return self.rewrite(("ite", c, t[2][0][1], t[2][1][1]))
+        if k == "switch" and len(t[2]) >= 2 and wildish(t[2][-1][0][0]) and t[2][-1][0][1] is None \
+                and all(d[0] in ("var", "wild", "lit", "or") for (d, g), v in t[2]) and self.is_variant_tree_or_none(t[2]):
+            # a `match` with guards that yields Some(..) / None: arms are tried in order, an arm is taken when its pattern matches and its
+            # guard holds (patterns bind nothing here: bound names are projections of the scrutinee)
+            scrut, arms = t[1], t[2]
+            acc = arms[-1][1]
+            for (d, g), v in reversed(arms[:-1]):
+                c = ("lit", True) if d[0] == "wild" else self.rewrite(("matches", scrut, d))
+                if g is not None:
+                    c = self.rewrite(("bin", "&&", c, g))
+                acc = self.rewrite(("ite", c, v, acc))
+            return acc
         if k == "switch" and len(t[2]) >= 2 and all(g is None and d[0] in ("slice", "wild") for (d, g), v in t[2]) and any(d[0] == "slice" for (d, g), v in t[2]):
             # a `match` on the shape of a slice (`[] => .., [first, rest @ ..] => ..`) is a case split on its length; the last arm of an
             # exhaustive match is taken when no earlier one is
@@ -465,6 +502,25 @@ class Normalizer:
             if name in ("unwrap_or_else", "unwrap_or") and not any(y[0] in ("payload",) or (y[0] == "proj" and y[1] == recv) for y in _sub(body)):
                 # x.unwrap_or_else(|| d)  ==  if let Some(v) = x { v } else { d }
                 return self.rewrite(("ite", M(recv, "some"), self.proj(recv, SOME, 0), body))
+            if name == "find_map" and body[0] == "ite" and body[2][0] == "ctor" and last(body[2][1]) == "Some" and len(body[2][2]) == 1 \
+                    and body[3][0] == "ctor" and last(body[3][1]) == "None":
+                # xs.iter().enumerate().find_map(|(i, x)| if C(x) { Some(V(i, x)) } else { None }): the first position where C holds decides;
+                # the value is V at that position
+                src = strip_adapters(recv)
+                seq = strip_adapters(src[2][0]) if src[0] == "call" and last(src[1]) == "enumerate" and len(src[2]) == 1 else src
+                counter = ("tproj", ("elem", src), 0) if seq is not src else None
+                cond, val = body[1], body[2][2][0]
+                el = ("elem", seq)
+                if not any(y[0] == "elem" and y != el for y in _sub(cond)) and (counter is None or not any(y == counter for y in _sub(cond))):
+                    import terms as _terms
+                    pos = ("hof", "position", ("call", "core::slice::<impl [T]>::iter", (seq,)), cond, ())
+                    at, hole = ("proj", pos, SOME, 0), ("param", "#found-at")
+                    v2 = _terms.replace(val, el, ("index", seq, hole))
+                    if counter is not None:
+                        v2 = _terms.replace(v2, counter, hole)
+                        v2 = _terms.replace(v2, ("tproj", ("elem", recv), 0), hole)
+                    if not any(y[0] == "elem" and y[1] in (src, recv, seq) for y in _sub(v2)):
+                        return self.norm(("ite", M(pos, "some"), ("ctor", SOME, (_terms.replace(v2, hole, at),)), body[3]))
             if name in ("map", "and_then") and self.is_variant_tree(recv):
                 # Ok(x).map(f) == Ok(f(x)), Err(e).map(f) == Err(e); distributed over conditionals
                 return self.norm(self.map_variants(recv, recv, body, name))
@@ -629,6 +685,9 @@ class Normalizer:
             return b
         return self.rewrite(("bin", "+", a, b))
 
+    def is_variant_tree_or_none(self, arms):
+        return all(self.is_variant_tree(v) for _, v in arms)
+
     def is_variant_tree(self, t):
         if t[0] == "ctor" and last(t[1]) in ("Some", "None", "Ok", "Err"):
             return True
@@ -778,6 +837,13 @@ class Normalizer:
                     if t == ("lit", True) and pol or t == ("lit", False) and not pol:
                         continue
                     out.append(("if", t, pol, c[4] if len(c) > 4 else None))
+                    if c[3] and len(c) > 5 and c[5]:
+                        # the arm is only reached when no earlier arm with a more specific pattern (`Some(Jump)` before `Some(op)`) matched
+                        for d_ in c[5]:
+                            if isinstance(d_, tuple) and d_ and d_[0] == "var" and desc_kind(d_) is None and last(d_[1]) == last(d[1]):
+                                t2 = self.rewrite(("matches", scrut, d_))
+                                if not (t2[0] == "lit" and isinstance(t2[1], bool)):
+                                    out.append(("if", t2, False, c[4] if len(c) > 4 else None))
                     if c[3] and len(c) > 7:
                         # the arm is only reached when no earlier guarded arm was taken
                         for d_, g_ in c[7]:
